@@ -85,6 +85,10 @@ func runC01(c *Ctx) {
 	c.rule("R14", "the instant given to the heartbeat file is read after the write of that beat: a slow write does not back-date the heartbeat it has just made", 1)
 	c.heartBeatEveryBeat("R11", "R12", "R14")
 	c.lockDirectoryStampedOnceItExists("R15")
+	// R16: "as long as the holder's heartbeat keeps running": the heartbeat lives on the context the acquire was given. The
+	// lock's own take-over path acquires by calling TryLock again: under a context that very function derives and cancels
+	// on its way out, the holder it has just made falls silent at once (the obligation C16/Y19, for the lock itself).
+	c.heartBeatOutlivesTheAcquire("R16", fsPkgRel, "a method of the lock that acquires (TryLock / Lock / LockWithTimeout, on itself or another lock) under a context it derived itself (context.With*) and cancels in that function also releases the lock there: the heartbeat of a lock that stays held is not stopped by the code that acquired it", 1)
 	c.rule("R13", "the heartbeat goroutine returns only where its context gate answered an error: a failed write does not end the heartbeat of a holder that is alive (the exit obligation of C17/S1)", 1)
 	c.heartBeatStopsOnlyWithItsContext("R13")
 
